@@ -216,7 +216,7 @@ func runMode(t *testing.T, h *Harness, determinism bool) {
 	if replayDir == "" {
 		replayDir = filepath.Dir(out)
 	}
-	startWatchdog(out, time.Duration(envInt("VERIF_WATCHDOG_S", 30))*time.Second)
+	startWatchdog(out, time.Duration(envInt("VERIF_WATCHDOG_S", 90))*time.Second)
 
 	sum := &Summary{Property: h.ID, Worker: worker, Outcomes: map[string]int{}, Probes: map[string]int{}, Faults: map[string]int{},
 		Strategies: map[string]int{}, Rule: h.Rule, Real: h.Real, Stub: h.Stub, Assume: h.Assumptions}
